@@ -41,6 +41,7 @@ type Run struct {
 	memo      map[string]StrV
 	cs        *concState
 	fsCalls   []Value
+	fsKinds   []Value
 	gorPanic  any
 	gwritten  map[*ssa.Global]bool
 	cancelCtx *ctxObj
@@ -518,7 +519,11 @@ func (e *Engine) registerIntrinsics() {
 		if m == nil {
 			panic(unsupported("Write method not found on %v", w.T))
 		}
-		return r.callFunc(fr, m, []Value{w.V, BytesOf{S: s}}, nil)
+		res := r.callFunc(fr, m, []Value{w.V, BytesOf{S: s}}, nil)
+		if r.cs != nil && strings.Contains(r.eng.sched, "wyield") {
+			r.yield()
+		}
+		return res
 	}
 	noop := func(r *Run, fr *frame, a []Value) Value { return nil }
 	for _, n := range []string{"(*sync.RWMutex).Lock", "(*sync.RWMutex).Unlock", "(*sync.RWMutex).RLock", "(*sync.RWMutex).RUnlock", "(*sync.Mutex).Lock", "(*sync.Mutex).Unlock"} {
@@ -600,7 +605,18 @@ func (e *Engine) registerIntrinsics() {
 	// ---- filesystem stubs: record mutating calls, results nondeterministic ----
 	notExist := func(r *Run) Value { return *r.global(r.eng.prog.ImportedPackage("io/fs").Var("ErrNotExist")) }
 	in["os.Stat"] = func(r *Run, fr *frame, a []Value) Value {
-		// roots do not exist in this scenario
+		// byte-level recorder: the target directory itself (and its parent) exists, nothing else does
+		p := a[0].(StrV)
+		for _, ex := range []string{"/jail/target", "/jail"} {
+			e := r.strEqual(p, strLit(ex))
+			is := e.C
+			if e.S != nil {
+				is = r.branch(e.S)
+			}
+			if is {
+				return Tuple{Iface{T: r.eng.prog.ImportedPackage("io/fs").Type("FileInfo").Type(), V: &fileInfoObj{dir: true}}, Iface{}}
+			}
+		}
 		return Tuple{Iface{}, notExist(r)}
 	}
 	in["os.IsNotExist"] = func(r *Run, fr *frame, a []Value) Value {
@@ -608,15 +624,20 @@ func (e *Engine) registerIntrinsics() {
 	}
 	in["os.MkdirAll"] = func(r *Run, fr *frame, a []Value) Value {
 		r.fsCalls = append(r.fsCalls, a[0])
+		r.fsKinds = append(r.fsKinds, strLit("mkdir"))
 		return Iface{}
 	}
 	in["os.Create"] = func(r *Run, fr *frame, a []Value) Value {
 		r.fsCalls = append(r.fsCalls, a[0])
+		r.fsKinds = append(r.fsKinds, strLit("create"))
 		slot := new(Value)
 		*slot = &fileObj{}
 		return Tuple{Ptr(slot), Iface{}}
 	}
 	in["(*os.File).Close"] = func(r *Run, fr *frame, a []Value) Value { return Iface{} }
+	in[G+"verifFSKinds"] = func(r *Run, fr *frame, a []Value) Value {
+		return SliceV{Data: append([]Value{}, r.fsKinds...)}
+	}
 	in[G+"verifFSCalls"] = func(r *Run, fr *frame, a []Value) Value {
 		return SliceV{Data: append([]Value{}, r.fsCalls...)}
 	}
